@@ -16,7 +16,7 @@ GTor ==
   \/ \E s \in StreamIds, st \in {"NEW", "NEWRESOLVE"}, t \in Targets, sa \in Srcs :
         StreamNew(s, st, t, sa) /\ H([a |-> "StreamNew", ev |-> SE(s, st, 0, t, sa)])
   \/ \E s \in StreamIds, c \in CircIds : SentConnect(s, c) /\ H([a |-> "SentConnect", ev |-> SE(s, "SENTCONNECT", c, ts[s].tgt, "")])
-  \/ \E s \in StreamIds : Remap(s) /\ H([a |-> "Remap", ev |-> SE(s, "REMAP", ts[s].circ, "10.9.8.7", "")])
+  \/ \E s \in StreamIds, ra \in RemapAddrs : Remap(s, ra) /\ H([a |-> "Remap", ev |-> SE(s, "REMAP", ts[s].circ, ra, "")])
   \/ \E s \in StreamIds : Succeeded(s) /\ H([a |-> "Succeeded", ev |-> SE(s, "SUCCEEDED", ts[s].circ, ts[s].tgt, "")])
   \/ \E s \in StreamIds : Detached(s) /\ H([a |-> "Detached", ev |-> SE(s, "DETACHED", ts[s].circ, ts[s].tgt, "")])
   \/ \E s \in StreamIds, how \in {"CLOSED", "FAILED"} : StreamGone(s, how) /\ H([a |-> "StreamGone", ev |-> SE(s, how, ts[s].circ, ts[s].tgt, "")])
